@@ -49,6 +49,20 @@ def generate(tier, seed):
             v = names[0] if len(names) == 1 else rnd.choice(names)
             cases.append("pm kg2 %s %s %s" % (ke, pt, enc(v)))
             cases.append("pm kg3 %s %s %s" % (ke, pt, enc(v)))
+    # the SAME pattern text through two functions of one process: ':name' is a placeholder for keyMatch2 and plain text for
+    # keyMatch3 / keyMatch5, so "/a/:x" must keep its two meanings whichever function saw the text first (the literal reading is
+    # asked first; each function is a pure function of its two arguments, whatever it may remember between calls)
+    dist["same_text_two_functions"] = 0
+    for p in pats:
+        if not any(s.startswith(":") for s in p):
+            continue
+        lit = "@" + ",".join("S" if s == "*" else "L." + enc(s) for s in p)
+        for k in ks[:40] + ["/" + "/".join("v" if s.startswith(":") else s for s in p if s != "*")]:
+            ke = enc(k)
+            cases.append("pm km3 %s %s" % (ke, lit))
+            cases.append("pm km2 %s %s" % (ke, pat_tok(p)))
+            cases.append("pm km5 %s %s" % (ke, lit))
+            dist["same_text_two_functions"] += 1
     # key_match / key_get: text patterns with '*' anywhere
     kmp = ["/a/*", "/a*", "*", "/a", "", "/a/b*", "/é*", "/*/a", "a*b*", "/ab/*"]
     kmk = ["", "/", "/a", "/a/", "/a/b", "/ab", "/ab/c", "/é", "/éa", "/é/b", "a", "ab", "/b", "/😀", "/a\nb"]
